@@ -410,6 +410,20 @@ def compare_summaries(a, b, rtol, scale=1.0, rename=None):
     return None
 
 
+def twin_of(cfgs):
+    """Same first / last entry, length and smallest spacing, one interior configuration moved into a neighbouring hole (None if there is no hole)."""
+    cfgs = list(cfgs)
+    gap = min(b - a for a, b in zip(cfgs, cfgs[1:]))
+    have = set(cfgs)
+    for i in range(1, len(cfgs) - 1):
+        for cand in (cfgs[i] + gap, cfgs[i] - gap):
+            if cand not in have and cfgs[0] < cand < cfgs[-1]:
+                new = sorted(have - {cfgs[i]} | {cand})
+                if min(b - a for a, b in zip(new, new[1:])) == gap:
+                    return new
+    return None
+
+
 def meta_layouts(tier):
     from checks import c02
     return c02.all_layouts(tier)
@@ -469,6 +483,33 @@ def run_case(case):
             variants.append(('add-constant', pars, {'fdat': lambda x: x + 3.0}, 1e-8, 1.0, None))
             variants.append(('scale:-3', pars, {'fdat': lambda x: x * -3.0}, 1e-10, 3.0, None))
             variants.append(('scale:0.5', pars, {'fdat': lambda x: x * 0.5}, 1e-10, 0.5, None))
+        # call history across objects: a 'twin' with the same chains, the same first / last configuration, number of configurations
+        # and spacing but one interior configuration moved into a hole is analysed after the base object; it must agree with
+        # its own relabelled copy (a=2), and the base object analysed again afterwards must agree with its first analysis
+        twin_cfg = {n: twin_of(lay[n]) for n in names}
+        if any(twin_cfg[n] is not None for n in names) and ('variant' not in case or case['variant'].startswith('twin')):
+            tl = {n: (twin_cfg[n] if twin_cfg[n] is not None else list(lay[n])) for n in names}
+
+            def build_twin(idl_map=lambda c: c):
+                return pe.Obs([samples[n] for n in names], list(names), idl=[alpha.idl_carrier([idl_map(c) for c in tl[n]]) for n in names])
+            try:
+                t1 = build_twin()
+                t1.gamma_method(**pars)
+                t2 = build_twin(lambda c: 2 * c + 1)
+                t2.gamma_method(**pars)
+                bad = compare_summaries(analysis_summary(t1), analysis_summary(t2), 1e-10, 1.0)
+                again = build()
+                again.gamma_method(**pars)
+                bad2 = compare_summaries(sb, analysis_summary(again), 1e-12, 1.0)
+            except ValueError:
+                bad = bad2 = None
+            if bad:
+                acc.fail('meta:twin-after-base', dict(sub, variant='twin-after-base'), 'layout %s data=%s pars=%s: an object with one configuration moved (%s), analysed after the base object, differs from its relabelled copy: %s' % (
+                    {k: (list(v2[:4]) + ['..', v2[-1]]) for k, v2 in lay.items()}, d, pars, {k: v2 for k, v2 in twin_cfg.items() if v2}, bad))
+            elif bad2:
+                acc.fail('meta:base-after-twin', dict(sub, variant='twin-base-again'), 'layout data=%s pars=%s: the base object analysed again after a similar object gives other numbers: %s' % (d, pars, bad2))
+            else:
+                acc.ok(('meta', case['lay'], d, pi, 'twin'), True, 'meta-twin-history')
         for vname, vpars, bkw, rtol, scale, _ in variants:
             if 'variant' in case and case['variant'] != vname:
                 continue
